@@ -184,6 +184,10 @@ class Analysis:
                     return ("acm", c.func)
                 if self.is_cm(c.func):
                     return ("cm", c.func)
+                # a plain function that only forwards to a context-manager function
+                inner = self._forwarded_cm(c.func)
+                if inner is not None:
+                    return inner
                 rt = self.r.ann_to_type(c.func.module, getattr(c.func.node, "returns", None))
                 if isinstance(rt, ClassInfo):
                     return ("class", rt)
@@ -201,6 +205,21 @@ class Analysis:
         if isinstance(t, str):
             return ("ext", t[4:])
         return None
+
+    def _forwarded_cm(self, f: FuncInfo, depth: int = 0):
+        if depth > 3 or f.is_async or f.is_generator:
+            return None
+        rets = [n for n in walk_own(f.node) if isinstance(n, ast.Return)]
+        if len(rets) != 1 or not isinstance(rets[0].value, ast.Call):
+            return None
+        c = self.callee(f, rets[0].value)
+        if c.kind != "func":
+            return None
+        if self.is_acm(c.func):
+            return ("acm", c.func)
+        if self.is_cm(c.func):
+            return ("cm", c.func)
+        return self._forwarded_cm(c.func, depth + 1)
 
     def node_checkpoints(self, func: FuncInfo, cfg: CFG, n: Node) -> list:
         """Reasons why executing this node may suspend the current task (empty = cannot)."""
